@@ -55,4 +55,27 @@ theorem lpq_gram_psd {p q L : ℝ} (hq : 0 < q) (hqp : q ≤ p) (hp2 : p ≤ 2) 
       lpqCore p q L (applyT T (List.ofFn (xs i))) (applyT T (List.ofFn (xs j))) := rfl
   rw [this, hU i, hU j, lpqCore_ofFn hp]
 
+/-- Gram matrix of a kernel at the centers `xs` (what `(K + λI)α = Y` is solved with). -/
+noncomputable def gram (K : Spec ℝ) (T : Transform ℝ) {d n : ℕ} (xs : Fin n → Fin d → ℝ) :
+    Matrix (Fin n) (Fin n) ℝ :=
+  Matrix.of fun i j => entry K T (List.ofFn (xs i)) (List.ofFn (xs j))
+
+theorem gram_lpq_posSemidef {p q L : ℝ} (hq : 0 < q) (hqp : q ≤ p) (hp2 : p ≤ 2) (hL : 0 < L)
+    (T : Transform ℝ) {d n : ℕ} (xs : Fin n → Fin d → ℝ) : (gram (.lpq p q L) T xs).PosSemidef := by
+  refine Matrix.PosSemidef.of_dotProduct_mulVec_nonneg ?_ fun v => ?_
+  · ext i j
+    simp only [gram, Matrix.conjTranspose_apply, Matrix.of_apply, star_trivial, entry, coreEntry, lpqCore]
+    rw [pdist_comm]
+  · have h := lpq_gram_psd hq hqp hp2 hL T xs v
+    simp only [dotProduct, Matrix.mulVec, gram, Matrix.of_apply, star_trivial, Pi.star_apply, Finset.mul_sum]
+    exact h.trans_eq (Finset.sum_congr rfl fun i _ => Finset.sum_congr rfl fun j _ => by ring)
+
+theorem gram_laplace_eq (q L : ℝ) (T : Transform ℝ) {d n : ℕ} (xs : Fin n → Fin d → ℝ) :
+    gram (.laplace q L) T xs = gram (.lpq 2 q L) T xs := rfl
+
+theorem gram_product_eq {q : ℝ} (hq : 0 < q) (L : ℝ) (T : Transform ℝ) {d n : ℕ} (xs : Fin n → Fin d → ℝ) :
+    gram (.product q L) T xs = gram (.lpq q q L) T xs := by
+  ext i j
+  exact productCore_eq_lpq hq L _ _
+
 end Xrfmv.Kernel
